@@ -214,8 +214,9 @@ impl TraversalMut for DfsEdge {
         DfsEdge {
             stack,
             last_push,
+            // a tree with n nodes has n - 1 edges
             size_lb: if root == tree.get_root_idx() {
-                tree.len()
+                tree.len().saturating_sub(1)
             } else {
                 0
             },
